@@ -94,7 +94,7 @@ func c01MapOrder(r *run.Run) {
 }
 
 func c20MapOrder(r *run.Run) {
-	r.ExploreSharded(explore.Config{Name: "C20.map-order", Bound: 0, Deadline: r.PartDeadline(0.5)},
+	r.ExploreSharded(explore.Config{Name: "C20.map-order", Bound: 0, Deadline: r.PartDeadline(0.3)},
 		mapOrderRule("every 5-glyph font of C20.names (name patterns x cmap subsets x GSUB variants), MakeGlyphNames"),
 		mapOrderProcs, 0,
 		func(c *explore.Ctx) {
@@ -178,7 +178,7 @@ func c10MapOrder(r *run.Run) {
 func c15MapOrder(r *run.Run) {
 	swMenu := []map[string]bool{nil, {"liga": true, "kern": true, "ss01": true, "cpsp": true}}
 	strs := []string{"fi", "ffi", "AB", "fAiB", "ZfiZ"}
-	r.ExploreSharded(explore.Config{Name: "C15.map-order", Deadline: r.PartDeadline(0.5)},
+	r.ExploreSharded(explore.Config{Name: "C15.map-order", Deadline: r.PartDeadline(0.25)},
 		mapOrderRule("every generator font of C15.layout x languages {und,tr} x 2 feature-switch maps: FindLookups for GSUB and GPOS, NewLayouter and Layout on 5 strings"),
 		mapOrderProcs, 0,
 		func(c *explore.Ctx) {
